@@ -361,16 +361,15 @@ pub fn object_from_entries(
     let result_guard = interp.heap.create_guard();
     let result = interp.create_object(&result_guard);
 
-    let length = arr
-        .borrow()
-        .array_length()
-        .ok_or_else(|| JsError::type_error("Object.fromEntries requires an array-like"))?;
+    // Any iterable of [key, value] entries: an array, a Map, a generator, ...
+    let entries = interp
+        .collect_iterator_values(&JsValue::Object(arr.clone()))?
+        .ok_or_else(|| JsError::type_error("Object.fromEntries requires an iterable"))?;
+    for entry in &entries {
+        entry.guard_by(&result_guard);
+    }
 
-    for i in 0..length {
-        let entry = arr
-            .borrow()
-            .get_property(&PropertyKey::Index(i))
-            .unwrap_or(JsValue::Undefined);
+    for entry in entries {
         if let JsValue::Object(entry_ref) = entry {
             let entry_borrow = entry_ref.borrow();
             if entry_borrow.is_array() {
